@@ -213,7 +213,9 @@ impl Engine for TwinSim {
     }
 
     fn generate(&self, rng: &mut Rng) -> TwinCase {
-        let mut k = WorldKnobs::new(if self.mode == "C22" { InspKind::Monitor } else { InspKind::None });
+        // C22: half of the reward-off systems carry no inspector, so that popping the appended
+        // registers empties the register list (its own rebuild path)
+        let mut k = WorldKnobs::new(if self.mode == "C22" && rng.bool() { InspKind::Monitor } else { InspKind::None });
         if self.mode == "C31" {
             k.tune = |c, _r| {
                 c.w_transient = 10;
